@@ -197,6 +197,9 @@ func checkC01(c C01Case, o *Obs) error {
 		if err := fa.Write(&w); err != nil {
 			return fmt.Errorf("record %d: Write to a buffer failed: %v", i, err)
 		}
+		if err := samePlain(fa.Write, w.Bytes()); err != nil {
+			return fmt.Errorf("record %d: %v", i, err)
+		}
 		if err := writeAfterFailure(fa.Write, w.Bytes()); err != nil {
 			return fmt.Errorf("record %d: %v", i, err)
 		}
